@@ -83,6 +83,7 @@ package consensus
 //@ func (*Validator).VerifyNewConfirms
 //@   props C03
 //@   requires block != nil && block.Header != nil && deputynode.wfManager(dm) && deputynode.cfgOK()
+//@   modifies block.Header.signerNodeID
 //@   let ds = dm.GetDeputiesByHeight(block.Height(), true)
 //@   ensures forall(i, 0, len(result0), exists(k, 0, len(ds), content(ds[k].NodeID) == signer(block, result0[i])))
 //@   ensures forall(i, 0, len(result0), forall(j, 0, len(result0), i != j ==> signer(block, result0[i]) != signer(block, result0[j])))
@@ -91,7 +92,7 @@ package consensus
 //@   ensures unchanged(block.Confirms)
 //@   invariant @loop 0: 0 <= $k && $k <= len(block.Confirms) && signed != nil && (minerOK(block) ==> has(signed, strof(minerKey(block))))
 //@   invariant @loop 0: forall(j, 0, $k, sigOK(block, block.Confirms[j]) ==> has(signed, strof(signer(block, block.Confirms[j]))))
-//@   invariant @loop 1: 0 <= $k && $k <= len(sigList) && fresh(validConfirms) && unchanged(block.Confirms) && unchanged(sigList)
+//@   invariant @loop 1: 0 <= $k && $k <= len(sigList) && fresh(validConfirms) && unchanged(block.Confirms) && unchanged(sigList) && frameElems(types.SignData)
 //@   invariant @loop 1: signed != nil && (minerOK(block) ==> has(signed, strof(minerKey(block))))
 //@   invariant @loop 1: forall(j, 0, len(block.Confirms), sigOK(block, block.Confirms[j]) ==> has(signed, strof(signer(block, block.Confirms[j]))))
 //@   invariant @loop 1: forall(i, 0, len(validConfirms), has(signed, strof(signer(block, validConfirms[i]))))
@@ -220,3 +221,90 @@ package consensus
 //@   ensures result == nil ==> forall(i, 0, len(block.Txs), uint64(block.Time()) <= block.Txs[i].data.Expiration && block.Txs[i].data.Expiration - uint64(block.Time()) <= 1800)
 //@   ensures result != nil ==> result == ErrVerifyBlockFailed || result == ErrVerifyHeaderFailed
 //@   nopanic
+
+// C02, second half: after re-execution the block is accepted only if the locally sealed block has the same header hash (which covers
+// every root and gas figure, Header.Hash), the change-log root commits to the locally computed logs, and at a snapshot height the
+// deputy root commits both to the deputy list in the body and to the locally ranked candidates of the parent.
+//@ func (CandidateLoader).LoadTopCandidates   pure trusted
+//@   opt reads=heap
+
+//@ func verifyDeputy
+//@   props C02 C10
+//@   requires block != nil && block.Header != nil && deputynode.cfgOK()
+//@   modifies nothing
+//@   ensures result == nil <==> (block.Height() % params.TermDuration != 0 || (content(block.DeputyNodes.MerkleRootSha()) == content(block.DeputyRoot()) && content(canLoader.LoadTopCandidates(block.ParentHash()).MerkleRootSha()) == content(block.DeputyRoot())))
+//@   ensures result != nil ==> result == ErrVerifyBlockFailed
+//@   nopanic
+
+//@ func verifyChangeLog
+//@   props C02
+//@   requires block != nil && block.Header != nil
+//@   modifies nothing
+//@   ensures result == nil <==> ((len(block.ChangeLogs) == 0 || block.ChangeLogs.MerkleRootSha() == block.LogRoot()) && computedLogs.MerkleRootSha() == block.LogRoot())
+//@   ensures result != nil ==> result == ErrVerifyBlockFailed
+//@   nopanic
+
+//@ func (*Validator).VerifyAfterTxProcess
+//@   props C02
+//@   requires v != nil && block != nil && block.Header != nil && computedBlock != nil && computedBlock.Header != nil && deputynode.cfgOK()
+//@   modifies nothing
+//@   ensures result == nil ==> computedBlock.Hash() == block.Hash()
+//@   ensures result == nil ==> computedBlock.ChangeLogs.MerkleRootSha() == block.LogRoot()
+//@   ensures result == nil ==> len(block.ChangeLogs) == 0 || block.ChangeLogs.MerkleRootSha() == block.LogRoot()
+//@   ensures result == nil && block.Height() % params.TermDuration == 0 ==> content(block.DeputyNodes.MerkleRootSha()) == content(block.DeputyRoot())
+//@   ensures result == nil && block.Height() % params.TermDuration == 0 ==> content(v.canLoader.LoadTopCandidates(block.ParentHash()).MerkleRootSha()) == content(block.DeputyRoot())
+//@   ensures result != nil ==> result == ErrVerifyBlockFailed
+//@   nopanic
+
+// Re-execution (transaction processor, account manager, sealing) is outside this contract set: assumed to write neither the engine
+// object's own fields nor the protocol parameters, to leave the received block's header pointer alone, and to return a sealed block
+// on success.
+//@ func (*BlockAssembler).RunBlock   trusted
+//@   modifies allbut(DPoVP, params, "chainWrites")
+//@   ensures block.Header == old(block.Header)
+//@   ensures result1 == nil ==> result0 != nil && result0.Header != nil
+
+// Re-execution starts only for a block that passed every pre-execution check, and the block is returned only if the locally sealed
+// block has the same header hash.
+//@ func (*DPoVP).VerifyAndSeal
+//@   props C02
+//@   requires dp != nil && dp.validator != nil && dp.processor != nil && dp.assembler != nil && block != nil && block.Header != nil
+//@   requires wfTxs(block.Txs) && params.MinGasPrice != nil && dp.validator.dm == dp.dm
+//@   requires deputynode.wfManager(dp.dm) && deputynode.cfgOK() && dp.dm.DeputyCount <= 65536 && dp.validator.mineTimeout > 0 && dp.validator.mineTimeout <= 1<<32
+//@   modifies allbut(DPoVP, params, "chainWrites")
+//@   let p = dp.validator.blockLoader.GetBlockByHash(block.ParentHash())
+//@   let ds = dp.dm.GetDeputiesByHeight(block.Height(), true)
+//@   assert @call RunBlock#0: res1(p) == nil && block.Height() == res0(p).Height() + 1
+//@   assert @call RunBlock#0: int64(block.Time()) - gh("clock", 0) <= 1 && block.Time() >= res0(p).Time() && len(block.Extra()) <= 256
+//@   assert @call RunBlock#0: block.Txs.MerkleRootSha() == block.TxRoot()
+//@   assert @call RunBlock#0: types.recoverOK(block.Hash(), content(block.Header.SignData))
+//@   assert @call RunBlock#0: exists(i, 0, len(ds), content(ds[i].NodeID) == types.nodeKeyOf(block.Hash(), content(block.Header.SignData)) && ds[i].MinerAddress == block.MinerAddress())
+//@   assert @call RunBlock#0: block.Time() >= 10000000 && res1(GetCorrectMiner(res0(p).Header, int64(block.Time()) * 1000, int64(dp.validator.mineTimeout), dp.dm)) == nil
+//@   assert @call RunBlock#0: block.Time() >= 10000000 && res0(GetCorrectMiner(res0(p).Header, int64(block.Time()) * 1000, int64(dp.validator.mineTimeout), dp.dm)) == block.MinerAddress()
+//@   assert @call RunBlock#0: forall(i, 0, len(block.Txs), forall(j, 0, len(block.Txs), i != j ==> block.Txs[i].Hash() != block.Txs[j].Hash()))
+//@   assert @call RunBlock#0: forall(i, 0, len(block.Txs), uint64(block.Time()) <= block.Txs[i].data.Expiration && block.Txs[i].data.Expiration - uint64(block.Time()) <= 1800)
+//@   ensures result1 == nil ==> result0 != nil && result0.Hash() == block.Hash()
+//@   ensures result1 != nil ==> result0 == nil
+//@   nopanic
+
+// C02, chain level: everything that changes the chain (block store, tx guard, stable/current pointers, tx pool, confirm broadcast
+// bookkeeping) happens in saveNewBlock.  gh("chainWrites", 0) counts its calls; the helpers before it are assumed not to write the
+// chain (isIgnorableBlock only reads the store; TryConfirm only signs).
+//@ func (*DPoVP).isIgnorableBlock   trusted
+//@   modifies nothing
+//@ func (*Confirmer).TryConfirm   trusted
+//@   modifies allbut(DPoVP, params, "chainWrites")
+//@ func (*DPoVP).saveNewBlock   trusted
+//@   modifies all
+//@   ensures gh("chainWrites", 0) == old(gh("chainWrites", 0)) + 1
+//@   ensures result != ErrVerifyBlockFailed && result != ErrIgnoreBlock
+
+//@ func (*DPoVP).InsertBlock
+//@   props C02
+//@   requires dp != nil && dp.validator != nil && dp.processor != nil && dp.assembler != nil && dp.confirmer != nil && rawBlock != nil && rawBlock.Header != nil
+//@   requires wfTxs(rawBlock.Txs) && params.MinGasPrice != nil && dp.validator.dm == dp.dm
+//@   requires deputynode.wfManager(dp.dm) && deputynode.cfgOK() && dp.dm.DeputyCount <= 65536 && dp.validator.mineTimeout > 0 && dp.validator.mineTimeout <= 1<<32
+//@   assert @call saveNewBlock#0: block != nil && gh("chainWrites", 0) == old(gh("chainWrites", 0))
+//@   ensures result1 != nil ==> result0 == nil
+//@   ensures result1 == ErrVerifyBlockFailed || result1 == ErrIgnoreBlock ==> gh("chainWrites", 0) == old(gh("chainWrites", 0))
+//@   ensures result1 == nil ==> gh("chainWrites", 0) == old(gh("chainWrites", 0)) + 1
